@@ -130,6 +130,10 @@ func c05CanonPrint(out string) string {
 	var sb strings.Builder
 	for _, d := range order {
 		sort.Strings(days[d].other)
+		// transactions are printed in transaction.Compare order, which ignores the @performance targets: two transactions
+		// of one day that differ in nothing else keep their input order. The property allows exactly that (relative
+		// order of directives sharing date and kind), so the blocks of a day are compared as a multiset.
+		sort.Strings(days[d].txs)
 		sb.WriteString(strings.Join(days[d].other, "\n") + "\n--\n" + strings.Join(days[d].txs, "\n\n") + "\n====\n")
 	}
 	return sb.String()
